@@ -23,6 +23,7 @@ type Scenario struct {
 	Horizon  time.Duration          // virtual-time horizon (0 = none)
 	MaxSteps int
 	NoEarlyTick bool // timers fire only at quiescence (for scenarios whose oracle is not about time)
+	Watchdog time.Duration // real-time limit of one execution (default 20 s)
 	// AllowStuck: scenario handles stuck threads itself in End (default: stuck non-daemon threads are reported in Result.Stuck only).
 }
 
@@ -82,7 +83,7 @@ func runJob(j job) ExecResult {
 	if sc == nil {
 		return ExecResult{HarnessE: "unknown scenario " + j.Scenario}
 	}
-	x := RunOne(RunOpts{Devs: j.Devs, WantSig: j.WantSig, Trace: j.Trace, Horizon: sc.Horizon, MaxSteps: sc.MaxSteps, NoEarlyTick: sc.NoEarlyTick, Policy: j.Policy}, sc.Body)
+	x := RunOne(RunOpts{Devs: j.Devs, WantSig: j.WantSig, Trace: j.Trace, Horizon: sc.Horizon, MaxSteps: sc.MaxSteps, NoEarlyTick: sc.NoEarlyTick, Policy: j.Policy, Watchdog: sc.Watchdog}, sc.Body)
 	r := ExecResult{Devs: j.Devs, Steps: len(x.Points), EndWhy: x.EndWhy, HarnessE: x.HarnessE, VNow: x.now}
 	if x.HarnessE == "" && sc.End != nil {
 		func() {
